@@ -254,7 +254,7 @@ def build(P):
     def c08_cases(tier, seed):
         lits = {"INTEGER": ("5", "6"), "NEGINT": ("- 5", "6"), "REAL": ("2.5", "3.5"), "BOOLEAN": ("TRUE", "FALSE"), "CHAR": ("'c'", "'d'"), "STRING": ('"str"', '"other"')}
         tyof = {"NEGINT": "INTEGER"}
-        forms = ["assign", "for", "input", "read", "readfile", "getrecord", "byref", "deref", "byref-chain", "fn-byref", "redeclare", "reconst"]
+        forms = ["assign", "for", "input", "read", "readfile", "getrecord", "byref", "deref", "byref-chain", "fn-byref", "redeclare", "reconst", "input-deref", "byref-input", "deref-copy", "reconst-same", "for-in-proc", "getrecord-byref"]
         progs = []
         for lt, (v, w) in lits.items():
             ty = tyof.get(lt, lt)
@@ -275,6 +275,15 @@ def build(P):
                     elif form == "byref-chain": L += ["PROCEDURE Q(BYREF y : %s)" % ty, "y <- %s" % w, "ENDPROCEDURE", "PROCEDURE P(BYREF x : %s)" % ty, "CALL Q(x)", "ENDPROCEDURE", "CALL P(K)"]
                     elif form == "fn-byref": L += ["FUNCTION F(BYREF x : %s) RETURNS INTEGER" % ty, "INPUT x", "RETURN 1", "ENDFUNCTION", "OUTPUT F(K)"]
                     elif form == "deref": L += ["TYPE PT = ^%s" % ty, "DECLARE p : PT", "p <- ^K", "OUTPUT p^", "p^ <- %s" % w]
+                    elif form == "input-deref": L += ["TYPE PT = ^%s" % ty, "DECLARE p : PT", "p <- ^K", "INPUT p^"]
+                    elif form == "byref-input": L += ["PROCEDURE P(BYREF x : %s)" % ty, "INPUT x", "ENDPROCEDURE", "CALL P(K)"]
+                    elif form == "deref-copy": L += ["TYPE PT = ^%s" % ty, "DECLARE p, q : PT", "p <- ^K", "q <- p", "q^ <- %s" % w]
+                    elif form == "reconst-same": L += ["CONSTANT K = %s" % v.replace("- ", "-") if False else "CONSTANT K = %s" % v]
+                    elif form == "for-in-proc":
+                        if ty != "INTEGER": continue
+                        L += ["PROCEDURE P", "FOR K <- 1 TO 2", "OUTPUT \"body\"", "NEXT K", "ENDPROCEDURE", "CALL P"]
+                    elif form == "getrecord-byref": L += ["DECLARE v : %s" % ty, "v <- %s" % w, "OPENFILE \"r.dat\" FOR RANDOM", "PUTRECORD \"r.dat\", v", "SEEK \"r.dat\", 1",
+                                                          "PROCEDURE P(BYREF x : %s)" % ty, "GETRECORD \"r.dat\", x", "ENDPROCEDURE", "CALL P(K)"]
                     elif form == "redeclare": L += ["DECLARE K : %s" % ty]
                     elif form == "reconst": L += ["CONSTANT K = %s" % w]
                     L += ["OUTPUT \"not reached K=\", K"]
@@ -344,6 +353,8 @@ def build(P):
             "TYPE P = ^INTEGER\nDECLARE gp : P\nPROCEDURE Rec(n : INTEGER)\nDECLARE loc : INTEGER\nloc <- n\nIF n = 3 THEN\ngp <- ^loc\nENDIF\nIF n > 0 THEN\nCALL Rec(n - 1)\nENDIF\nIF n >= 3 THEN\nOUTPUT gp^\nENDIF\nENDPROCEDURE\nCALL Rec(5)\nOUTPUT gp^",
             "TYPE P = ^INTEGER\nDECLARE gp : P\nPROCEDURE A\nDECLARE loc : INTEGER\nloc <- 1\ngp <- ^loc\nENDPROCEDURE\nPROCEDURE B(d : INTEGER)\nDECLARE pad : INTEGER\npad <- 100 + d\nIF d > 0 THEN\nCALL B(d - 1)\nELSE\nOUTPUT gp^\nENDIF\nENDPROCEDURE\nCALL A\nCALL B(3)",
             "TYPE P = ^INTEGER\nTYPE Q = ^STRING\nDECLARE p : P\nDECLARE q : Q\nx <- 1\np <- ^x\nq <- p",
+            "TYPE P = ^INTEGER\nDECLARE gp : P\nFUNCTION Rd() RETURNS INTEGER\nRETURN gp^\nENDFUNCTION\nPROCEDURE A\nDECLARE loc : INTEGER\nloc <- 5\ngp <- ^loc\nOUTPUT \"function callee sees \", Rd()\nENDPROCEDURE\nCALL A",
+            "TYPE P = ^INTEGER\nFUNCTION Rd(q : P) RETURNS INTEGER\nq^ <- q^ + 1\nRETURN q^\nENDFUNCTION\nFUNCTION Outer(v : INTEGER) RETURNS INTEGER\nDECLARE lp : P\nlp <- ^v\nRETURN Rd(lp) + Rd(lp)\nENDFUNCTION\nOUTPUT Outer(10)",
             # targets inside nested records, arrays of records and array fields
             "TYPE In\nDECLARE x : INTEGER\nENDTYPE\nTYPE Out\nDECLARE inner : In\nDECLARE y : INTEGER\nENDTYPE\nTYPE P = ^INTEGER\nDECLARE r : Out\nDECLARE q : P\nr.inner.x <- 20\nq <- ^r.inner.x\nOUTPUT q^\nq^ <- q^ + 3\nOUTPUT r.inner.x, \" \", q^",
             "TYPE In\nDECLARE x : INTEGER\nENDTYPE\nTYPE Mid\nDECLARE inner : In\nENDTYPE\nTYPE Out\nDECLARE mid : Mid\nENDTYPE\nTYPE P = ^INTEGER\nDECLARE r : Out\nDECLARE q : P\nq <- ^r.mid.inner.x\nq^ <- 9\nOUTPUT r.mid.inner.x",
@@ -383,7 +394,8 @@ def build(P):
             body = ["PROCEDURE %s(%sv : INTEGER, d : INTEGER)" % (name, mode), "DECLARE loc : INTEGER", "DECLARE lp : PI", "loc <- v * 10 + d"]
             for _ in range(r.randint(1, 4)):
                 c = r.random()
-                if c < 0.25: body += ["lp <- ^loc"] + use("lp", name + "-lp")
+                if c < 0.12: body += ["lp <- ^loc"] + use("lp", name + "-lp")
+                elif c < 0.25: body += ["gp <- ^loc", "gq <- ^loc", "OUTPUT \"%s peek \", Peek(%d), \" \", PeekDeep(%d)" % (name, r.randint(0, 3), r.randint(0, 2))]
                 elif c < 0.4: body += ["gp <- ^loc"]
                 elif c < 0.5: body += ["gp <- ^v"]
                 elif c < 0.6: body += ["gq <- gp"]
@@ -392,6 +404,8 @@ def build(P):
                 else: body += ["gp <- ^%s" % r.choice(targets_g)]
             body += ["OUTPUT \"%s loc \", loc" % name, "ENDPROCEDURE"]
             procs.append(name); L += body
+        L += ["FUNCTION Peek(d : INTEGER) RETURNS INTEGER", "RETURN gp^ + d", "ENDFUNCTION",
+              "FUNCTION PeekDeep(d : INTEGER) RETURNS INTEGER", "IF d > 0 THEN", "RETURN PeekDeep(d - 1)", "ENDIF", "gq^ <- gq^ + 1", "RETURN gq^", "ENDFUNCTION"]
         L += ["FUNCTION MkP(which : INTEGER) RETURNS PI", "DECLARE fl : INTEGER", "DECLARE fp : PI", "fl <- 5", "IF which = 1 THEN", "fp <- ^fl", "ELSE", "fp <- ^g2", "ENDIF", "RETURN fp", "ENDFUNCTION"]
         for _ in range(r.randint(4, 12)):
             c = r.random()
